@@ -467,4 +467,48 @@ example : RoundTrips { encode := fun qs => some (qs.flatMap (fun _ => [0])), dec
 
 end Witness
 
+/-! ## Detection by file extension is overridden by magic bytes (finding `magic-overrides-extension`) -/
+
+/-- FULL statement of "type given by file extension": with no explicit type and no media type, a file whose name
+    carries a registered extension is read as the type that extension names. -/
+def extension_decides : Prop :=
+  ∀ (reg : Registry) (ord : List (Str × Cti)) (rr : ReaderInfo) (c : Cti),
+    rr.mediaType = none → resolveByExt ord rr = some c → resolveDecoderType reg ord rr [] = some c
+
+open Gen.RegistryFacts in
+/-- Witness on the regenerated registry: `lit.nt`, whose first bytes the lax HTML resolver (the fifth) claims —
+    e.g. the N-Triples line `<a:a> <a:p> "<div itemscope>x</div>" .` — is read as HTML (and converts to the empty
+    dataset; replayed on the binary by the harness, class `magic-overrides-extension`). -/
+theorem extension_decides_witness :
+    let rr : ReaderInfo := { mediaType := none, magic := some [none, none, none, none, some (asc "public.html")],
+                             fileName := some (asc "lit.nt") }
+    resolveByExt registry.fileExts rr = some (asc "org.w3.n-triples") ∧
+    resolveDecoderType registry registry.fileExts rr [] = some (asc "public.html") := by decide
+
+theorem extension_decides_false : ¬ extension_decides := by
+  intro h
+  have hw := extension_decides_witness
+  have := h Gen.RegistryFacts.registry Gen.RegistryFacts.registry.fileExts _ _ rfl hw.1
+  rw [hw.2] at this
+  revert this; decide
+
+/-- Proved part: the extension decides when no magic-byte resolver answers. Missing for the full statement:
+    nothing (it is false, by the priority order the code implements: `resolve_priority`). -/
+theorem extension_decides_partial (reg : Registry) (ord : List (Str × Cti)) (rr : ReaderInfo) (c : Cti)
+    (hm : rr.mediaType = none) (hg : resolveByMagic rr = none) (he : resolveByExt ord rr = some c) :
+    resolveDecoderType reg ord rr [] = some c := by
+  have h0 : resolveByType reg.aliases reg.decoders [] = none := Proofs.C18.resolveByType_empty _ _
+  have h1 : resolveByMedia reg.mediaTypes rr = none := by simp [resolveByMedia, hm]
+  rw [Proofs.C18.resolveDecoderType_of_ext h0 h1 hg, he]
+
+/-! ## Labels are handed through verbatim (finding `label-not-valid-in-target`) -/
+
+/-- Witness for why `pipe_nq_preserves` needs `labelOK` of the source labels: the label `a b` (admitted by the
+    RDF/JSON and JSON-LD decoders) is written verbatim and the N-Quads decoder does not read the output back. -/
+theorem invalid_label_witness :
+    ∃ doc, pipeNQ Gen.nquads false true driverU Witness.s0 (some (.strf 0)) .quads
+        [⟨.bnode (some (.bnString 0 [97, 32, 98])), .iri (RdfModel.asc "a:p"), .iri (RdfModel.asc "a:o"), none⟩] = .ok doc ∧
+      (run Gen.nquads (fun _ => true) .eof true doc).2 ≠ .clean := by
+  refine ⟨RdfModel.asc "_:a b <a:p> <a:o> .\n", by decide, by decide⟩
+
 end RdfModel.C18
